@@ -233,7 +233,8 @@ def edits : List Call → List Op
   | .edit op :: cs => op :: edits cs
   | .calculate :: cs => edits cs
 
-/-! ### Path-blocking d-separation (used only by the bounded supplement: moral criterion vs. path blocking) -/
+/-! ### Path-blocking d-separation (executable oracle; `P18.check_eq_backdoorPaths` proves `check = backdoorPaths`
+     for every well-formed DAG; the driver op `dagsep` evaluates both) -/
 
 /-- all simple paths from `cur` to `t` in the skeleton of `E`, not revisiting `vis` -/
 def simplePaths (E : List Edge) (t : Nat) : Nat → Nat → List Nat → List (List Nat)
